@@ -440,6 +440,92 @@ fn byte_coverage<S: ShortGroupSignatureScheme + 'static>(em: &mut Emitter, rng: 
     }
 }
 
+/// the decryptable (byte-wise) part run on a substitute value while (c1, c2) encrypts the signed one, with byte blinders
+/// that still sum to the ElGamal randomness: only the recombination of the byte ciphertexts' c2 ties the two
+pub fn verenc_byte_deviation<S: ShortGroupSignatureScheme + 'static>(em: &mut Emitter, rng: &mut Rng, suite: &str, tag: &str) {
+    for ci in [1usize, 3] {
+        let mix = Mix { n_creds: 1, n_claims: 5, age: rng.range(1, 90), disclosed: vec![vec!["city".to_string()]], verenc: Some((ci, true)), ..Default::default() };
+        let scn = Scn::<S>::build(rng, &mix);
+        em.oracle_case(&format!("{} verenc-byte-deviation {}", suite, ci));
+        match hand_verenc(&scn, rng, |m| m.to_be_bytes()) {
+            Some(q) if scn.verify(&q).is_ok() => {}
+            _ => {
+                em.violation(&format!("{}:harness-hand-prover-broken", tag), format!("{}: the hand-written honest ElGamal holder is rejected (harness self-check)", suite), scn.replay(json!({"suite": suite})));
+                continue;
+            }
+        }
+        let other = rng.scalar();
+        let devs: Vec<(&str, Box<dyn Fn(&Scalar) -> [u8; 32]>)> = vec![
+            ("last-byte-plus-one", Box::new(|m: &Scalar| {
+                let mut b = m.to_be_bytes();
+                b[31] = b[31].wrapping_add(1);
+                b
+            })),
+            ("bytes-of-another-value", Box::new(move |_: &Scalar| other.to_be_bytes())),
+            ("all-zero-bytes", Box::new(|_: &Scalar| [0u8; 32])),
+        ];
+        for (name, f) in devs {
+            if let Some(q) = hand_verenc(&scn, rng, |m| f(m)) {
+                let acc = scn.verify(&q).is_ok();
+                em.count(&format!("verenc-byte-deviation:{}:{}", name, if acc { "accepted" } else { "rejected" }));
+                if acc {
+                    em.violation(&format!("{}:wrong-byte-decomposition-accepted", tag), format!("{}: accepted although the decryptable part decomposes another value than the ciphertext bound to the signed claim ({})", suite, name), scn.replay(json!({"suite": suite, "deviation": name, "claim_index": ci})));
+                }
+            }
+        }
+    }
+}
+
+/// encrypt-and-decrypt of text claims whose text has leading / trailing white space or is white space only (and of
+/// identifiers of that shape): accepted, and the key holder gets exactly the signed claim back
+fn ved_text_values<S: ShortGroupSignatureScheme + 'static>(em: &mut Emitter, rng: &mut Rng, suite: &str) {
+    let texts: Vec<&str> = if em.thorough() { vec!["John Doe ", " John Doe", "a\n", "\t", " ", "a  b", "x\r\n", "ends with dot."] } else { vec!["John Doe ", "a\n", " "] };
+    for (ti, text) in texts.iter().enumerate() {
+        for ci in [1usize, 0] {
+            if ci == 0 && ti % 2 == 1 {
+                continue;
+            }
+            let mix = Mix { n_creds: 1, n_claims: 4, age: 33, disclosed: vec![vec![]], ved: Some(ci), ..Default::default() };
+            let mut scn = Scn::<S>::build(rng, &mix);
+            let mut claims = scn.bundles[0].credential.claims.clone();
+            claims[0] = RevocationClaim::from(if ci == 0 { format!("id-{}{}", rng.below(1 << 20), text) } else { format!("ved-text-{}", rng.below(1 << 20)) }).into();
+            if ci == 1 {
+                claims[1] = HashedClaim::from(*text).into();
+            }
+            let b = match scn.issuers[0].sign_credential(&claims) {
+                Ok(b) => b,
+                Err(_) => {
+                    em.count("ved-text:issuance-refused");
+                    continue;
+                }
+            };
+            scn.credentials.insert(scn.sig_ids[0].clone(), b.credential.clone().into());
+            scn.bundles[0] = b;
+            let sk = scn.issuers[0].verifiable_decryption_key.clone();
+            let signed = scn.bundles[0].credential.claims[ci].clone();
+            em.oracle_case(&format!("{} ved-text {:?} claim {}", suite, text, ci));
+            let replay = scn.replay(json!({"suite": suite, "text": text, "claim_index": ci}));
+            let p = match scn.create() {
+                Out::Ok(p) if scn.verify(&p).is_ok() => p,
+                _ => {
+                    em.violation("c10:honest-rejected", format!("{}: honest encrypt-and-decrypt presentation of the text {:?} not created / accepted", suite, text), replay);
+                    continue;
+                }
+            };
+            for pr in p.proofs.values() {
+                if let PresentationProofs::VerifiableEncryptionDecryption(v) = pr {
+                    match call(|| v.decrypt_and_verify(&sk)) {
+                        Out::Ok(c) if crate::claims::claim_str(&c) == crate::claims::claim_str(&signed) => em.count("ved-text:ok"),
+                        Out::Ok(c) => em.violation("c10:ved-other-claim", format!("{}: decrypt_and_verify returned {} for the signed {}", suite, crate::claims::claim_str(&c), crate::claims::claim_str(&signed)), replay.clone()),
+                        Out::Err => em.violation("c10:ved-honest-decryption-failed", format!("{}: decrypt_and_verify failed on an accepted honest proof of the text {:?} (claim {})", suite, text, ci), replay.clone()),
+                        Out::Panic(m) => em.violation("c10:ved-panic", format!("{}: decrypt_and_verify panicked: {}", suite, m), replay.clone()),
+                    }
+                }
+            }
+        }
+    }
+}
+
 /// what a hand-written encrypt-and-decrypt holder may choose freely
 struct VedChoice {
     /// scalar put into c2 and decomposed into bytes
@@ -751,9 +837,11 @@ pub fn gen_c10(em: &mut Emitter, rng: &mut Rng) {
     if em.mine(base + 2) {
         domain_pseudonyms::<Bbs>(em, &mut rng.sub(7003), "bbs");
         ved_deviations::<Ps>(em, &mut rng.sub(7006), "ps");
+        ved_text_values::<Bbs>(em, &mut rng.sub(7007), "bbs");
     }
     if em.mine(base + 3) {
         domain_pseudonyms::<Ps>(em, &mut rng.sub(7004), "ps");
         ved_deviations::<Bbs>(em, &mut rng.sub(7005), "bbs");
+        ved_text_values::<Ps>(em, &mut rng.sub(7008), "ps");
     }
 }
